@@ -220,6 +220,20 @@ def run(ctx, V):
         V.count("A-got-208" if 208 in codes else "A-not-busy")
         if "dropped" in sc.tags: V.count("dropped-client")
         if "D" in sc.tags["roles"]: V.count("stalled-client")
+    # a client that never reads and is owed MORE than its 1 MiB buffer (C15_overflow_only_beyond_buffer: the oldest unsent bytes are overwritten,
+    # nothing else happens): the other session must be served as if the non-reader were not there, and the loop must not block on its socket
+    import C04
+
+    def mon_nonreader(sess, sc):
+        out = sess.client_out.get(1, b"")
+        reps = pmcheck.split_replies(out) or []
+        if not any(isinstance(c[0], int) and 100 <= c[0] < 200 for c in reps):
+            return [("non-reader", "other-session-starved", "client 1 asked `nodes` while client 0 (not reading, owed more than 1 MiB) was being served: no successful reply arrived: %r" % out[-300:])]
+        return []
+    pmcheck.MONITORS["nonreader"] = mon_nonreader
+    ov = [C04.gen_overflow(ctx.rng, "out") for _ in range(2 if ctx.tier == "quick" else 6)]
+    pmcheck.run_batch(ctx, V, exe, ov, ["alive", "wedge", "nonreader"], "c11o")
+    V.count("non-reader-over-1MiB", len(ov))
     C06.correspond(ctx, V, n=300 if ctx.tier == "quick" else 6000)
 
 
